@@ -208,6 +208,12 @@ func mapsSchema() (main, impa, impb string) {
 		}
 		b.WriteString("}\n")
 	}
+	// union branches that embed sibling branches, used in arrays and maps: everything derived per branch
+	// (names, sizes, guards) is computed while ranging over the union's field map
+	b.WriteString("union Geo {\n  1 -> struct GPoint { int32 x; int32 y; }\n  2 -> struct GSegment { GPoint from; GPoint to; }\n")
+	b.WriteString("  3 -> struct GPath { GSegment[] segs; map[string, GSegment] named; }\n  4 -> struct GBox { GSegment diag; GPoint[] corners; }\n")
+	b.WriteString("  5 -> message GMsg { 1 -> GPath[] paths; 2 -> map[uint32, GBox] boxes; }\n  7 -> struct GTri { GSegment a; GSegment b; GPoint apex; }\n}\n")
+	b.WriteString("struct UsesGeo { GSegment[] segs; map[string, GBox] boxes; GPath p; GTri[] tris; }\n")
 	impa = "const string go_package = \"example.com/c14/impa\";\nstruct PA { int32 y; }\nstruct PB { string s; PA a; }\nenum EA { One = 1; Two = 2; }\nmessage MA { 1 -> PA a; 2 -> EA e; 3 -> PB b; }\nunion UA { 1 -> struct UAS { int32 z; } 2 -> message UAM { 1 -> PA p; } }\n"
 	impb = "const string go_package = \"example.com/c14/impb\";\nstruct QA { float32 y; }\nstruct QB { map[string, QA] m; }\nenum EB { X = 7; }\nmessage MB { 1 -> QA a; 2 -> QB b; }\n"
 	return b.String(), impa, impb
